@@ -71,6 +71,22 @@ def work(tasks, idx):
                                            "case": cases.auth_case(a, ea), "match": {"op": "register-authenticate", "fmt": fmt}})
                     break
                 stored = int(ca_["record"]["new_sign_count"])
+            # one more assertion, chosen so that its signature begins with a zero octet (about one RSA / Ed25519 signature in
+            # 256 does): a signature is the octet string the authenticator sent, leading zeros included
+            kind = core.key_kind(cred.priv)
+            if kind in ("rsa", "okp") and (kind == "okp" or cred.priv.key_size <= 4096) and fmt in ("none", "packed-self", "packed"):
+                for j in range(1500):
+                    a, ea, _ = faults.build_assertion(cred, counter=stored + 1 + j, stored=stored, rp_id=rp_id, origin="https://" + rp_id)
+                    if a["signature"][0] == 0:
+                        ea["public_key"], ea["stored_count"] = stored_key, stored
+                        cz = cases.run_auth(a, ea)
+                        res.evaluations += 1
+                        res.count("chain:leading-zero-signature")
+                        tie.check(cases.auth_case(a, ea), cz, label=["authenticate-after", fmt, "leading-zero-signature"])
+                        if cz["k"] != "accept":
+                            res.violations.append({"why": f"assertion whose signature begins with a zero octet rejected against the returned key: {cz}",
+                                                   "case": cases.auth_case(a, ea), "match": {"op": "register-authenticate", "fmt": fmt}})
+                        break
             res.count("chain:" + fmt)
             if len(res.samples) < 3:
                 res.samples.append({"fmt": fmt, "credential": choice, "authentications": n})
